@@ -1,7 +1,7 @@
 (* Props_C06.v — property theorems for C06 (only statements closed by [exact]). *)
 From Coq Require Import List String Bool ZArith.
 Import ListNotations.
-From HolpyV Require Import Z3Trans.
+From HolpyV Require Import Z3Trans Kernel FoSimp FoSimpSound.
 
 (* On the natural-number / integer fragment the (repaired) translation handed to
    Z3 has exactly the HOL meaning of the goal in every environment: natural
@@ -31,3 +31,26 @@ Theorem C06_historical_translation_refuted :
   exists f, (forall e, zsem e (tr false f)) /\ (forall e, ~ hsem e f).
 Proof. exact tr_historical_refuted. Qed.
 Print Assumptions C06_historical_translation_refuted.
+
+(* fologic.simplify (the last stage of z3wrapper.norm_term, applied to every goal before it is
+   translated) on the quantifier-free propositional skeleton: the simplified formula has the truth
+   value of the original under every valuation of the atoms.  A step that turns false = q into
+   ~false (a seeded change) is refuted.  The result need not be free of constants
+   (false = false becomes ~false): stated as a refutation, not a property of C06.
+   Tie: case_simplify compares fologic.simplify with the model on generated formulas. *)
+Theorem C06_simplify_meaning : forall v f, seval v (simplify f) = seval v f.
+Proof. exact simplify_sem. Qed.
+Print Assumptions C06_simplify_meaning.
+
+Theorem C06_simplify_wrong_side_refuted : exists v f, seval v (simplify1_bad f) <> seval v f.
+Proof. exact simplify1_bad_refuted. Qed.
+Print Assumptions C06_simplify_wrong_side_refuted.
+
+Theorem C06_simplify_constants_may_remain : exists f, ~ reduced (simplify f).
+Proof. exact simplify_reduced_refuted. Qed.
+Print Assumptions C06_simplify_constants_may_remain.
+
+Example C06_simplify_example :
+  let P := SAtom (Var "P" BoolT) in
+  simplify (SImp (SNot (SIff SFalse P)) (SAnd STrue P)) = SImp P P /\ simplify (SIff SFalse SFalse) = SNot SFalse.
+Proof. vm_compute. split; reflexivity. Qed.
